@@ -11,7 +11,7 @@ from discread import parse_dump
 SALT = 77
 
 
-def make_container(kind, cyl, spt, scratch, tag):
+def make_container(kind, cyl, spt, scratch, tag, nocat_side1=False):
     """Container file whose sector i (file position) is stamp(SALT, i), except for a valid catalogue at the
     documented place of (side, track 0, sectors 0/1) of every surface.  Returns (path, drives{side:drive}, nfile)."""
     n1 = cyl * spt
@@ -27,6 +27,8 @@ def make_container(kind, cyl, spt, scratch, tag):
     # the catalogue declares the whole surface; counts of 1024 and more use bit 2 of byte 6 (bit 10 of the count), which the
     # geometry prober reads (get_dfs_sector_count) although the catalogue reader proper keeps 10 bits
     for h in sides:
+        if h == 1 and nocat_side1:
+            continue          # a side that was never formatted with a file system: still a surface, still at its documented place
         off = (h * spt) if kind == "inter" else h * n1
         s0, s1 = mkdisc.catalog_fragment(b"SIDE%d" % h, 0, 0, n1 & 1023, [], byte6_extra=4 if n1 & 1024 else 0)
         mkdisc.put(img, off, s0)
@@ -137,8 +139,50 @@ def run(chk, tier, seed):
                 obs = shown_sector(o, stamps)
             return dict(c, e="sector", obs=obs)
         events = common.pmap(do, jobs)
+        # sessions with two image files of different geometry: each file's surfaces still map to that file's documented offsets
+        # (nothing of one file's layout may carry over to the next)
+        sel = [k for k in sorted(files) if k in (("plain1", 40, 10), ("plain1", 80, 18), ("inter", 80, 10), ("inter", 35, 18), ("plain1", 35, 10), ("inter", 40, 18))]
+        sjobs = []
+        for ka in sel:
+            for kb in sel:
+                if ka != kb and (not quick or (sel.index(ka) + sel.index(kb)) % 2 == 1):
+                    sjobs.append((ka, kb))
+
+        def do_session(pair):
+            ka, kb = pair
+            pa, pb = files[ka][0], files[kb][0]
+            o = common.run([dfs, "--file", pa, "--file", pb, "--show-config", "help"], timeout=30)
+            drv = {}
+            for m in re.finditer(r"Drive (\d+): occupied, .*?(?:side (\d) of )?(?:non-)?interleaved file (\S+)", o.err.decode("latin1")):
+                drv[(m.group(3), int(m.group(2) or 0))] = m.group(1)
+            evs = []
+            for key, path in ((ka, pa), (kb, pb)):
+                kind, cyl, spt = key
+                for h in ([0] if kind == "plain1" else [0, 1]):
+                    d_ = drv.get((path, h))
+                    for t, s_ in ((1, 0), (cyl - 1, spt - 1), (cyl, 0)):
+                        if d_ is None:
+                            obs = -2
+                        else:
+                            obs = shown_sector(common.run([dfs, "--file", pa, "--file", pb, "dump-sector", d_, str(t), str(s_)], timeout=30), stamps)
+                        evs.append(dict(e="sector", kind=kind, cyl=cyl, spt=spt, side=h, t=t, s=s_, obs=obs, session="%s-%d-%d+%s-%d-%d" % (ka + kb)))
+            return evs
+        for evs in common.pmap(do_session, sjobs):
+            events += evs
+        chk.extra["two_file_sessions"] = len(sjobs)
+        # a two-sided image whose second side carries no file system: its sectors are still where the documentation says
+        # (80 tracks: the only geometry large enough, so the prober's "other side has a catalogue too" tie-break is not consulted;
+        # a 40-track image of this kind is not recognised at all, which the statement does not cover)
+        for cyl, spt in ((80, 10), (80, 18)):
+            pth, drives, nfile = make_container("inter", cyl, spt, scratch, "nocat-%d-%d" % (cyl, spt), nocat_side1=True)
+            for h in (0, 1):
+                for t, s_ in ((0, 0), (0, 1), (1, 0), (cyl - 1, spt - 1), (cyl, 0), (cyl // 2, 3)):
+                    if h == 0 and t == 0 and s_ < 2:
+                        continue        # side 0's catalogue, not stamped
+                    obs = shown_sector(common.run([dfs, "--file", pth, "dump-sector", drives[h], str(t), str(s_)], timeout=30), stamps)
+                    events.append(dict(e="sector", kind="inter", cyl=cyl, spt=spt, side=h, t=t, s=s_, obs=obs, session="side1-without-catalogue"))
         for e in events:
-            chk.case((e["kind"], e["cyl"], e["spt"], e["side"], e["t"], e["s"]), nontrivial=(e["t"], e["s"]) != (0, 0))
+            chk.case((e["kind"], e["cyl"], e["spt"], e["side"], e["t"], e["s"], e.get("session", "")), nontrivial=(e["t"], e["s"]) != (0, 0))
         chk.sample(events[0])
         chk.sample(events[-1])
         # geometry actually chosen for each container (ties the replay to the intended geometry)
@@ -253,9 +297,10 @@ def run(chk, tier, seed):
         for ln in sorted(tr.verdicts[-1]["bad"]):
             e = events[ln - 1]
             if e["e"] == "sector":
-                chk.violation("%s:%s" % (e["kind"], "beyond" if e["t"] >= e["cyl"] else "offset"),
-                              "dump-sector side %d track %d sector %d of a %s %dx%d container showed file sector %d" %
-                              (e["side"], e["t"], e["s"], e["kind"], e["cyl"], e["spt"], e["obs"]), dict(event=e))
+                chk.violation("%s:%s%s" % (e["kind"], "beyond" if e["t"] >= e["cyl"] else "offset", ":two-files" if e.get("session") else ""),
+                              "dump-sector side %d track %d sector %d of a %s %dx%d container%s showed file sector %d" %
+                              (e["side"], e["t"], e["s"], e["kind"], e["cyl"], e["spt"], (" (session " + e["session"] + ")") if e.get("session") else "", e["obs"]),
+                              dict(event=e))
             else:
                 chk.violation("mmb-status" + (":after-%s" % "-".join("%02X" % b for b in e["before"][-1:]) if e.get("before") else ""),
                               "MMB slot %s with status byte 0x%02X (after slots with %r) observed as %s" % (e.get("slot", e["status"]), e["status"], e.get("before"), e["obs"]),
